@@ -673,6 +673,15 @@ class DeepInliner(Inliner):
                 ge = self._gen_call_as_genexp(ctx, s.value.args[0], origin)
                 if ge is not None:
                     s.value.args[0] = ge
+            # `kwargs["labels"] = dict(<pairs>)` / `return dict(<pairs>)`: the mapping gets a local of its own (and is unrolled there)
+            if isinstance(s, (ast.Assign, ast.Return)) and s.value is not None and isinstance(_as_dictcomp(s.value), ast.DictComp) and not isinstance(s.value, ast.DictComp):
+                plain = isinstance(s, ast.Assign) and len(s.targets) == 1 and isinstance(s.targets[0], ast.Name)
+                if not plain:
+                    name = self._fresh_tmp("mapping__comp", taken)
+                    pre_ = _loc(ast.Assign(targets=[ast.Name(id=name, ctx=ast.Store())], value=s.value), s.value)
+                    s.value = _loc(ast.Name(id=name, ctx=ast.Load()), s.value)
+                    queue = [pre_, s] + queue
+                    continue
             hoisted = self._hoist(ctx, s, taken, stack)
             if len(hoisted) > 1:
                 queue = hoisted + queue
